@@ -436,6 +436,10 @@ theorem inv_of_tr (cb : Cb) (j : Nat) (hcb : cb = .start j ∨ cb = .wake j ∨ 
       · rw [view_pc_eq (htr.other t.2 htj)]; exact h.kind t h1
       · exact absurd (hall t h1) htj
 
+/-- outcome of a transition of job `j` as `inv_of_tr` needs it -/
+def Good (j : Nat) (s s' : St) (ad : Bool) : Prop :=
+  Tr j s s' ∧ LocV (view s' j) ad ∧ (∀ t ∈ s'.threads, t.2 = j → kindOk t.1 (s'.jobs j).pc = true)
+
 theorem cThr_zero_kind (s : St) (j : Nat) (h : cThr s j = 0) : ∀ t ∈ s.threads, t.2 ≠ j := by
   intro t ht he
   unfold cThr at h
@@ -463,11 +467,11 @@ theorem pre_wake (s : St) (ad : Bool) (j : Nat) (hj : LocV (viewP (.wake j) s j)
   generalize (s.jobs j).pc = pc at *
   cases pc <;> simp [pk, launched, pcMarker, pcAdopted] at hj ⊢ <;> grind
 
-theorem wake_inv (fl : Flags) (s : St) (ad : Nat → Bool) (j : Nat) (h : InvP (some (.wake j)) s ad) :
-    InvP none (s.runCb fl (.wake j)) ad := by
+theorem wake_good (fl : Flags) (s : St) (ad : Nat → Bool) (j : Nat) (h : InvP (some (.wake j)) s ad) :
+    Good j s (s.runCb fl (.wake j)) (ad j) := by
   obtain ⟨hpc, hth, hst, hrs, hwk, hsl, hla, hma, had⟩ := pre_wake s (ad j) j (h.loc j)
   have hnt := cThr_zero_kind s j hth
-  refine inv_of_tr (.wake j) j (by simp) s _ ad ad h ?tr (fun _ _ => rfl) ?self ?kind
+  refine ⟨?tr, ?self, ?kind⟩
   case tr =>
     simp only [St.runCb]
     split
@@ -500,6 +504,11 @@ theorem wake_inv (fl : Flags) (s : St) (ad : Nat → Bool) (j : Nat) (h : InvP (
       · exact absurd htj (hnt t ht)
       · rcases hc with ⟨-, hp, hts, hs⟩ | ⟨-, hp, hts, hs⟩ | ⟨-, hp, hts, hs⟩ <;> simp [hts] at ht <;> subst ht <;> simp [jobs_put, hp, kindOk]
 
+
+theorem wake_inv (fl : Flags) (s : St) (ad : Nat → Bool) (j : Nat) (h : InvP (some (.wake j)) s ad) :
+    InvP none (s.runCb fl (.wake j)) ad := by
+  obtain ⟨g1, g2, g3⟩ := wake_good fl s ad j h
+  exact inv_of_tr (.wake j) j (by simp) s _ ad ad h g1 (fun _ _ => rfl) g2 g3
 
 theorem Bg.fields {s s' : St} (h : Bg s s') (i : Nat) :
     (s'.jobs i).pc = (s.jobs i).pc ∧ cStart s' i = cStart s i ∧ cRes s' i = cRes s i ∧ cThr s' i = cThr s i ∧
@@ -558,8 +567,9 @@ theorem pre_start (s : St) (ad : Bool) (j : Nat) (hj : LocV (viewP (.start j) s 
   generalize (s.jobs j).pc = pc at *
   cases pc <;> simp [pk, launched, pcMarker, pcAdopted] at hj ⊢ <;> grind
 
-theorem start_inv {D : Type} (fl : Flags) (hk : Hooks D) (a : StA D) (j : Nat) (h : InvP (some (.start j)) a.s a.adopted) :
-    InvP none (runCbA fl hk a (.start j)).s (runCbA fl hk a (.start j)).adopted := by
+theorem start_good {D : Type} (fl : Flags) (hk : Hooks D) (a : StA D) (j : Nat) (h : InvP (some (.start j)) a.s a.adopted) :
+    Good j a.s (runCbA fl hk a (.start j)).s ((runCbA fl hk a (.start j)).adopted j) ∧
+    ∀ i, i ≠ j → (runCbA fl hk a (.start j)).adopted i = a.adopted i := by
   obtain ⟨hpc, hth, hst, hrs, hwk, hsl, hla, had⟩ := pre_start a.s (a.adopted j) j (h.loc j)
   have hnt := cThr_zero_kind a.s j hth
   generalize hlk : hk.look a.d j (a.s.jobs j) = lk
@@ -582,9 +592,10 @@ theorem start_inv {D : Type} (fl : Flags) (hk : Hooks D) (a : StA D) (j : Nat) (
     have e2 : (runCbA fl hk a (.start j)).adopted = upd a.adopted j true := by
       simp only [runCbA, hlk, hadopt, if_true]
     rw [e, e2]
-    refine inv_of_tr (.start j) j (by simp) a.s _ a.adopted _ h ?_ ?_ ?_ ?_
-    · exact (htm.trans htp).trans (put_tr _ j _ _ _ (cbsOf_nil j) (by simp))
+    refine ⟨⟨?_, ?_, ?_⟩, ?_⟩
+    rotate_left 3
     · intro i hi; simp [upd, hi]
+    · exact (htm.trans htp).trans (put_tr _ j _ _ _ (cbsOf_nil j) (by simp))
     · rw [view_put]
       simp only [if_true]
       simp [LocV, CtlV, pk, launched, pcMarker, pcAdopted, upd, cW, cSleep] at *
@@ -600,7 +611,7 @@ theorem start_inv {D : Type} (fl : Flags) (hk : Hooks D) (a : StA D) (j : Nat) (
       simp only [runCbA, hlk, hadopt]; simp
     rw [e, e2]
     obtain ⟨f, jb', ths, he, h1, h2, h3, h4, h5, hc⟩ := loopHead_nf s1 j
-    refine inv_of_tr (.start j) j (by simp) a.s _ a.adopted _ h ?_ (fun _ _ => rfl) ?_ ?_
+    refine ⟨⟨?_, ?_, ?_⟩, fun _ _ => rfl⟩
     · exact (htm.trans htp).trans (loopHead_tr s1 j)
     · rw [he, view_put]
       clear he
@@ -615,6 +626,11 @@ theorem start_inv {D : Type} (fl : Flags) (hk : Hooks D) (a : StA D) (j : Nat) (
       · exact absurd htj (fun hh => hthr1 t ht hh)
       · rcases hc with ⟨-, hp, hts, hs⟩ | ⟨-, hp, hts, hs⟩ | ⟨-, hp, hts, hs⟩ <;> simp [hts] at ht <;> subst ht <;> simp [jobs_put, hp, kindOk]
 
+
+theorem start_inv {D : Type} (fl : Flags) (hk : Hooks D) (a : StA D) (j : Nat) (h : InvP (some (.start j)) a.s a.adopted) :
+    InvP none (runCbA fl hk a (.start j)).s (runCbA fl hk a (.start j)).adopted := by
+  obtain ⟨⟨g1, g2, g3⟩, g4⟩ := start_good fl hk a j h
+  exact inv_of_tr (.start j) j (by simp) a.s _ a.adopted _ h g1 g4 g2 g3
 
 def nonControl : Cb → Bool
   | .check _ _ => true
@@ -636,10 +652,6 @@ theorem bg_misc (s s' : St) (app : List Cb) (hj : s'.jobs = s.jobs) (hr : s'.rea
   all_goals first | assumption | skip
   · exact ⟨app, hr, fun i => (count_nonControl app happ i).2.2.2⟩
   · intro i; simp [hj]
-
-/-- outcome of a transition of job `j` as `inv_of_tr` needs it -/
-def Good (j : Nat) (s s' : St) (ad : Bool) : Prop :=
-  Tr j s s' ∧ LocV (view s' j) ad ∧ (∀ t ∈ s'.threads, t.2 = j → kindOk t.1 (s'.jobs j).pc = true)
 
 theorem pre_resume (s : St) (ad : Bool) (j : Nat) (hj : LocV (viewP (.resume j) s j) ad) :
     pk (s.jobs j).pc = .thr ∧ cThr s j = 0 ∧ cStart s j = 0 ∧ cRes s j = 0 ∧ cWake s j = 0 ∧ (s.jobs j).sleeping = false ∧
